@@ -1,6 +1,7 @@
 import Martian.Lemmas.HttpSpec
 import Martian.Props.C14.AnyCase
 import Martian.Props.C14.Exchange
+import Martian.Props.C14.Elements
 /-!
 C14 — The spec-compliance stack strips hop-by-hop headers, stamps Via and stops loops.
 Only property theorems, non-vacuity examples, and (for the one open finding, the Connection-listed
